@@ -1,14 +1,22 @@
+import re
 from props import only  # noqa: F401
+
+# default rule (a dump shows a bitset chunk or >= 2 chunks) + 64-bit: a tdump shows >= 2 partitions
+_NT = re.compile(r"\| nc=\d+ na=\d+ nb=[1-9]|\| nc=([2-9]|\d\d+) |\| parts=\[[^\]]*,")
 
 RULE = ("cases = corpus + seeded cases (harness gen, splitmix64 from VERIF_SEED and case index): values from C01-style "
         "mutation histories (with 4096 steering), from decoded conformant streams, and tiny/empty sets; each followed by "
         "ser / ser_size / spec_encode (independent Rust reference encoder vs Lean Spec.encode vs crate) and a decode of "
         "the crate's own bytes with both decoders; non-trivial = some dump shows a bitset chunk or >= 2 chunks; "
-        "distinct by SHA-1 of the ops")
+        "distinct by SHA-1 of the ops. 64-bit half (profile C05T): treemaps with 0-4 partitions (keys from {0,1,3,4,2^32-1}) "
+        "from short histories or decoded conformant portable streams; tser / tser_size / tspec_encode (independent Rust "
+        "encoder vs Lean Spec.encode64 vs crate), decode of own bytes with both decoders, teq + expect true; non-trivial = "
+        ">= 2 partitions")
 
 CFG = {
-    "gen_profiles": ["C05"],
-    "cases": {"quick": 400, "thorough": 4000},
+    "gen_profiles": ["C05", "C05T"],
+    "cases": {"quick": 800, "thorough": 8000},
+    "nontrivial": lambda body, mout: any(_NT.search(o) for o in mout),
     "compare": "full",
     "rule": RULE,
     "targets": {
@@ -21,13 +29,23 @@ CFG = {
         "checked decode of own bytes": r"^deser_prefix chk .* => ok rest=0 eq=true",
         "unchecked decode of own bytes": r"^deser_prefix unchk .* => ok rest=0 eq=true",
         "value obtained from a run-encoded stream": r"^deser chk b\d+ hex:3b30.* => ok",
+        "64-bit: serialisation of the empty treemap": r"^tser t\d+ => n=8 hex:0000000000000000$",
+        "64-bit: short serialisation compared byte for byte": r"^tser t\d+ => n=\d+ hex:0[1-4]00000000000000",
+        "64-bit: long serialisation compared by hash": r"^tser t\d+ => n=\d+ sh=",
+        "64-bit: size of a value with >= 3 partitions": r"^tdump .*parts=\[[^\]]*,[^\]]*,",
+        "64-bit: partition key u32::MAX": r"^tdump .*parts=\[[^\]]*4294967295:",
+        "64-bit: partition with a bitset chunk (> 8 KiB)": r"^tser_size t\d+ => (8[2-9]\d\d|9\d\d\d|\d{5,})$",
+        "64-bit: checked decode of own bytes": r"^tdeser_prefix chk .* => ok rest=0 eq=true",
+        "64-bit: unchecked decode of own bytes": r"^tdeser_prefix unchk .* => ok rest=0 eq=true",
+        "64-bit: value decoded from a stream with an empty bucket": r"^note parts=.*empty-bucket",
     },
     "gaps": [
         'no proof gap: C05_size, C05_decode (round trip through both decoders, both build configurations, with arbitrary trailing bytes), C05_bytes (serialize b = Spec.encode (elems b)), C05_deterministic (+ C05_deterministic_repr via Bitmap.canonical, C05_injective), C05_conformant (the strict reference decoder Spec.decode accepts the output and reads back elems b; offsets are the true payload positions) and C05_is_bytes are proved unconditionally for Bitmap.WF values (the shared invariant of Inv.lean)',
         'the former kernel hypothesis Kernel.bitmap_toArray is discharged (Lemmas/CodecKernel.lean: bitmap_toArray, from BStore.length_toArray / toArray_lt / toArrayFrom_cons of the shared BitmapStore library)',
         'the local BitmapWF / StoreWF of Lemmas/CodecWF.lean are proved equivalent to the shared Bitmap.WF / Store.WF (bitmapWF_iff, storeWF_iff); the producer theorems (every API-built value is WF) belong to C01/C02/C04',
         'C05_offsets (i-th offset = position of chunk i payload) is part of C05_conformant (Spec.decode checks every offset against the true position)',
-        'the 64-bit (RoaringTreemap) half is handled by the treemap family',
+        '64-bit half (RoaringTreemap), no proof gap: C05_t_size, C05_t_framing (u64 count, strictly ascending u32 keys, each followed by the standard 32-bit stream of the partition), C05_t_decode / C05_t_decode_eq (both decoders, both build configurations, arbitrary trailing bytes), C05_t_bytes (Treemap.serialize t = Spec.encode64 (Treemap.elems t)), C05_t_deterministic (+ C05_t_deterministic_repr via Treemap.canonical, C05_t_injective) and C05_t_conformant (the strict reference decoder Spec.decode64 accepts the output and reads back elems t) are proved unconditionally for well-formed treemaps = Treemap.WFd Bitmap.WF (Treemap.TWF, the invariant of the other treemap families: strictly ascending u32 keys, every partition Bitmap.WF with an element; C05_t_wf_iff: equivalent to the codec view "... and not the empty bitmap"), lifted from the 32-bit theorems through the bucket loop (Lemmas/TreemapCodec.lean, TreemapEncodeSpec.lean, TreemapCodecWF.lean)',
+        'the former 64-bit partial theorems C05_t_bytes_partial / C05_t_deterministic_partial are replaced by the unconditional C05_t_bytes / C05_t_deterministic (the inherited 32-bit hypothesis Kernel.bitmap_toArray is discharged; bucket keys = distinct high halves, bucket contents = low halves: Lemmas/TreemapEncodeSpec.lean)',
     ],
     "level_text": "Lean 4 theorems over the executable model of serialize_into / serialized_size / both decoders: size law, "
                   "equality with an independent reference encoder written from the format specification (Spec.encode, "
@@ -36,5 +54,5 @@ CFG = {
                   "correspondence on generated values in two build profiles.",
     "level_note": "Trusted: Lean kernel; SpecCodec.lean as the reading of RoaringFormatSpec (run-free encoder); the model "
                   "mirrors serialization.rs (checked by correspondence only); byteorder/Write::write_all modelled by their "
-                  "contracts. 32-bit half only.",
+                  "contracts. Partial theorems are listed in evidence.partial_theorems / proof_gaps.",
 }
